@@ -1066,4 +1066,245 @@ theorem gi_run (sched : List Tid) : ∀ g : G, GI g → GI (grun sched g) := by
   | cons t rest ih => intro g h; exact ih _ (gi_step t g h)
 
 
+/-! ### what the linearization consists of -/
+
+/-- the evaluator's own operations (an `.interrupt` in its program is the arrival of an interrupt) -/
+def evalOps (l : List Op) : List Op := l.filter (fun o => o != .interrupt)
+
+/-- the operation the evaluator has fetched and not yet linearized -/
+def inflight (epc : EPc) (cur : Nat) : List Op :=
+  match epc with
+  | .pushLock p => [.push p]
+  | .popLock _ => [.finish cur]
+  | .stopLock => [.stop]
+  | _ => []
+
+/-- an interrupt the goroutine has taken and not yet linearized -/
+def tok (c : Conc) : Nat :=
+  if c.tpc = .lock ∨ (c.tpc = .sel ∧ c.sh.stopped = false) then 1 else 0
+
+def ints (l : List Op) : Nat := l.count .interrupt
+
+theorem evalOps_snoc_int (l : List Op) : evalOps (l ++ [.interrupt]) = evalOps l := by
+  simp [evalOps]
+
+theorem evalOps_snoc (l : List Op) (o : Op) (h : o ≠ .interrupt) : evalOps (l ++ [o]) = evalOps l ++ [o] := by
+  simp [evalOps, h]
+
+theorem estep_acc (g : G) (c' : Conc) (he : estep .current g.c = some c') :
+    evalOps (linE g) ++ inflight c'.epc (curE g) ++ evalOps c'.prog =
+      evalOps g.lin ++ inflight g.c.epc g.cur ++ evalOps g.c.prog ∧
+    ints (linE g) = ints g.lin ∧
+    c'.pending + ints c'.prog = g.c.pending + ints g.c.prog ∧
+    c'.tpc = g.c.tpc ∧ (c'.sh.stopped = false → g.c.sh.stopped = false) := by
+  unfold estep at he
+  unfold linE curE
+  cases hpc : g.c.epc <;> simp only [hpc] at he ⊢
+  case idle =>
+    cases hprog : g.c.prog with
+    | nil => simp [hprog] at he
+    | cons op rest =>
+      cases op with
+      | push p => simp [hprog] at he; subst he; simp [inflight, evalOps, ints]
+      | finish i =>
+        simp only [hprog] at he
+        cases hp : g.c.sh.pops[i]? <;> simp [hp] at he <;> subst he <;> simp [inflight, evalOps, ints, hp]
+      | interrupt => simp [hprog] at he; subst he; simp [inflight, evalOps, ints]; omega
+      | stop => simp [hprog] at he; subst he; simp [inflight, evalOps, ints]
+  case pushLock p =>
+    simp only [acquire_current] at he
+    split at he
+    · simp at he; subst he; simp [inflight, evalOps, ints]
+    · simp at he
+  case popLock p =>
+    simp only [acquire_current] at he
+    split at he
+    · simp at he; subst he; simp [inflight, evalOps, ints]
+    · simp at he
+  case stopLock =>
+    simp only [acquire_current] at he
+    split at he
+    · simp at he; subst he; simp [inflight, evalOps, ints]
+    · simp at he
+  case popTest p =>
+    by_cases hf : g.c.sh.cells.getD p.cell false = true
+    · simp only [hf, if_true] at he; injection he with he; subst he; simp [inflight]
+    · simp only [hf, if_false, Cfg.current] at he; injection he with he; subst he; simp [inflight]
+  case popLoop p k =>
+    by_cases hk : k > p.stackIdx
+    · simp only [hk, if_true, Cfg.current] at he; injection he with he; subst he; simp [inflight]
+    · simp only [hk, if_false] at he; injection he with he; subst he; simp [inflight]
+  case stopLoop k =>
+    by_cases hk : k > 0
+    · simp only [hk, if_true] at he; injection he with he; subst he; simp [inflight]
+    · simp only [hk, if_false] at he; injection he with he; subst he; simp [inflight]
+  case stopClose =>
+    injection he with he; subst he
+    simp [inflight]
+    split <;> simp_all
+  all_goals first
+    | (injection he with he; subst he; simp [inflight, Cfg.current, release]; done)
+    | (split at he <;> (injection he with he; subst he) <;> simp [inflight, Cfg.current, panicSt]; done)
+    | skip
+
+theorem tstep_acc (c c' : Conc) (lin : List Op) (ht : tstep .current c = some c') :
+    evalOps (if c.tpc = .lock then lin ++ [.interrupt] else lin) = evalOps lin ∧
+    ints (if c.tpc = .lock then lin ++ [.interrupt] else lin) + c'.pending + tok c' ≤ ints lin + c.pending + tok c := by
+  unfold tstep at ht
+  cases hpc : c.tpc <;> simp only [hpc] at ht ⊢
+  case wait =>
+    split at ht
+    · rename_i hs; injection ht with ht; subst ht; simp [tok, hpc, hs]
+    · split at ht
+      · rename_i hs hp; injection ht with ht; subst ht; simp [tok, hpc, hs]; omega
+      · cases ht
+  case sel =>
+    injection ht with ht; subst ht
+    by_cases hs : c.sh.stopped = true <;> simp [tok, hpc, hs]
+  case lock =>
+    simp only [acquire_current] at ht
+    split at ht
+    · simp at ht; subst ht; simp [tok, hpc, evalOps, ints]; omega
+    · simp at ht
+  case lenTest =>
+    injection ht with ht; subst ht
+    by_cases hp : c.sh.cancelFns.len > 0 <;> simp [tok, hpc, hp]
+  case lenIdx => injection ht with ht; subst ht; simp [tok, hpc]
+  case load idx =>
+    cases idx with
+    | none => injection ht with ht; subst ht; simp [tok, hpc, panicSt]
+    | some i =>
+      simp only at ht
+      split at ht <;> (injection ht with ht; subst ht) <;> simp [tok, hpc, panicSt]
+  case unlock => injection ht with ht; subst ht; simp [tok, hpc, release, Cfg.current]
+  case exited => cases ht
+
+/-- the linearization is the evaluator's program so far, in program order, with interrupts
+    inserted — never more interrupts than have arrived -/
+structure Acc (prog0 : List Op) (g : G) : Prop where
+  ord : evalOps g.lin ++ inflight g.c.epc g.cur ++ evalOps g.c.prog = evalOps prog0
+  cnt : ints g.lin + g.c.pending + tok g.c + ints g.c.prog ≤ ints prog0
+
+theorem acc_init (prog : List Op) : Acc prog (G.init prog) := by
+  refine ⟨?_, ?_⟩
+  · simp [G.init, Conc.init, evalOps, inflight]
+  · simp [G.init, Conc.init, ints, tok]
+
+theorem tok_mono (c c' : Conc) (h1 : c'.tpc = c.tpc) (h2 : c'.sh.stopped = false → c.sh.stopped = false) :
+    tok c' ≤ tok c := by
+  unfold tok
+  rw [h1]
+  by_cases hl : c.tpc = .lock
+  · simp [hl]
+  · by_cases hs : c.tpc = .sel
+    · cases h3 : c'.sh.stopped
+      · simp [hs, h2 h3]
+      · simp [hs]
+    · simp [hl, hs]
+
+theorem acc_step (prog0 : List Op) (t : Tid) (g : G) (hg : GI g) (h : Acc prog0 g) : Acc prog0 (gstep t g) := by
+  unfold gstep
+  rw [cstep_eq t g.c (gi_np hg)]
+  cases t with
+  | trig =>
+    simp only
+    cases ht : tstep Cfg.current g.c with
+    | none => exact h
+    | some c' =>
+      obtain ⟨fe, fp, _⟩ := tstep_frame g.c c' ht
+      obtain ⟨a, b⟩ := tstep_acc g.c c' g.lin ht
+      refine ⟨?_, ?_⟩
+      · show evalOps (if g.c.tpc = .lock then g.lin ++ [.interrupt] else g.lin) ++ inflight c'.epc g.cur ++ evalOps c'.prog = _
+        rw [a, fe, fp]; exact h.ord
+      · show ints (if g.c.tpc = .lock then g.lin ++ [.interrupt] else g.lin) + c'.pending + tok c' + ints c'.prog ≤ _
+        rw [fp]; have := h.cnt; omega
+  | eval =>
+    simp only
+    cases he : estep Cfg.current g.c with
+    | none => exact h
+    | some c' =>
+      obtain ⟨a, b, d, e, f⟩ := estep_acc g c' he
+      have := tok_mono g.c c' e f
+      refine ⟨?_, ?_⟩
+      · show evalOps (linE g) ++ inflight c'.epc (curE g) ++ evalOps c'.prog = _
+        rw [a]; exact h.ord
+      · show ints (linE g) + c'.pending + tok c' + ints c'.prog ≤ _
+        rw [b]; have := h.cnt; omega
+
+theorem acc_run (prog0 : List Op) (sched : List Tid) : ∀ g : G, GI g → Acc prog0 g → Acc prog0 (grun sched g) := by
+  induction sched with
+  | nil => intro g _ h; exact h
+  | cons t rest ih => intro g hg h; exact ih _ (gi_step t g hg) (acc_step prog0 t g hg h)
+
+
+/-! ### progress -/
+
+theorem tstep_in_enabled (c : Conc) (h : tIn c.tpc = true) : (tstep .current c).isSome = true := by
+  unfold tstep
+  cases hpc : c.tpc <;> simp only [hpc, tIn] at h ⊢
+  case load idx =>
+    cases idx with
+    | none => rfl
+    | some i => simp only; split <;> rfl
+  all_goals first | rfl | (simp at h)
+
+theorem estep_in_enabled (c : Conc) (h : eIn c.epc = true) : (estep .current c).isSome = true := by
+  unfold estep
+  cases hpc : c.epc <;> simp only [hpc, eIn] at h ⊢
+  all_goals first | rfl | (split <;> rfl) | (simp at h)
+
+/-- progress: if the evaluator has anything left to do, a thread is enabled -/
+theorem progress (c : Conc) (hmi : MI c) (hwork : c.prog ≠ [] ∨ c.epc ≠ .idle) :
+    (estep .current c).isSome = true ∨ (tstep .current c).isSome = true := by
+  cases hin : eIn c.epc
+  · cases htin : tIn c.tpc
+    · -- the mutex is free
+      have hmu : c.mu = none := by have := hmi.1; simp [htin, hin] at this; exact this
+      left
+      unfold estep
+      cases hpc : c.epc <;> simp only [hpc, eIn] at hin ⊢
+      case idle =>
+        cases hprog : c.prog with
+        | nil => rcases hwork with hw | hw <;> simp_all
+        | cons op rest =>
+          cases op with
+          | finish i => simp only; split <;> rfl
+          | _ => rfl
+      case stopClose => rfl
+      all_goals first | (simp [acquire_current, hmu]; done) | (simp at hin)
+    · right; exact tstep_in_enabled c htin
+  · left; exact estep_in_enabled c hin
+
+
+/-- executable form of `StopLast` -/
+def stopLastB : List Op → Bool
+  | [] => true
+  | .stop :: rest => rest.isEmpty
+  | _ :: rest => stopLastB rest
+
+theorem stopLast_of_b : ∀ (l : List Op), stopLastB l = true → StopLast l := by
+  intro l
+  induction l with
+  | nil => intro _ pre post h; cases pre <;> simp at h
+  | cons op rest ih =>
+    intro hb pre post h
+    cases pre with
+    | nil =>
+      simp at h
+      obtain ⟨h1, h2⟩ := h
+      subst h1
+      simp [stopLastB] at hb
+      rw [← h2]; exact hb
+    | cons x pre' =>
+      simp at h
+      obtain ⟨h1, h2⟩ := h
+      have hb' : stopLastB rest = true := by
+        cases op <;> simp [stopLastB] at hb ⊢
+        · exact hb
+        · exact hb
+        · exact hb
+        · subst hb; cases pre' <;> simp at h2
+      exact ih hb' pre' post h2
+
+
 end Proofs.C20
